@@ -213,7 +213,7 @@ impl Visitor for TryAs<'_> {
     }
 }
 
-fn relabel_sub(ctx: &Ctx) -> Sub {
+pub fn relabel_sub(ctx: &Ctx) -> Sub {
     // sources: backend x purpose x 2 footers x 2 assertions
     let mut sources = Vec::new();
     for b in 0..6usize {
